@@ -40,7 +40,7 @@ ASSUMPTIONS = [
 ]
 BUDGET = {
     "quick": dict(cases=330, shards=4, timeout=600),
-    "thorough": dict(cases=1500, shards=16, timeout=3000),
+    "thorough": dict(cases=1200, shards=16, timeout=3000),
 }
 CLASSES = [
     "wellformed", "single_fixable", "single_unfixable", "pair_fixable_first", "pair_fixable_last",
@@ -63,17 +63,17 @@ FLOORS = {
                            "fix_raised": 100, "fix_partial_then_raise": 15, "empty_transcript_read": 60,
                            "refs_all_empty_report": 30, "fix0_cli": 20}),
         "sets": {"repairs": 10, "defects": 40},
-        "distinct": 900,
+        "distinct": 800,
     },
     "thorough": {
         "events": {"validate_spect_data_set": 20000, "get-torch-spect-data-dir-info": 10000,
                    "SpectDataSet.__getitem__": 20000, "SpectDataSet.write_hyp": 10000},
-        "classes": dict({c: 800 for c in CLASSES},
+        "classes": dict({c: 600 for c in CLASSES},
                         **{"wf": 5000, "ill_repairable": 2500, "ill_unrepairable": 2500,
                            "fix_partial_then_raise": 200, "empty_transcript_read": 1000,
                            "refs_all_empty_report": 500, "fix0_cli": 300}),
         "sets": {"repairs": 12, "defects": 100},
-        "distinct": 15000,
+        "distinct": 12000,
     },
 }
 
@@ -479,9 +479,25 @@ def generate(rng, tier, i):
             _inject_any(rng, model, utts, ["ref_int32", "ref_halfopen"], k, meta)
         steps = [{"op": "observe_validate", "k": rng.choice([None, k]), "eos": meta["maxr"] + 1,
                   "sos": rng.choice([None, meta["maxr"] + 2]), "tokens_only": rng.random() < 0.4}]
+    for d in model["files"].values():
+        for fn in d:
+            d[fn] = _canonical(d[fn])
     case["model"] = model
     case["steps"] = steps
     return case
+
+
+def _canonical(spec):
+    """Values as the dtype will hold them (stacked defects may have mixed ints into bool/uint8/float data)."""
+    if not DM.is_tensor(spec):
+        return spec
+    dt = spec["dtype"]
+    conv = bool if dt == "bool" else (lambda v: int(v) % 256) if dt == "uint8" else float if dt.startswith("float") else int
+
+    def walk(x):
+        return [walk(v) for v in x] if isinstance(x, list) else conv(x)
+
+    return DM.tspec(dt, spec["shape"], walk(spec["data"]))
 
 
 def _rename(rng, model, utts, meta, k, case):
@@ -614,11 +630,23 @@ class _Ctx:
     pass
 
 
+def _scratch_parent():
+    """Shards put their per-case scratch directory inside the runner's own temporary directory
+    (the one holding --out), which the parent removes even when the watchdog kills a shard."""
+    import sys
+
+    if "--out" in sys.argv[:-1]:
+        d = os.path.dirname(os.path.abspath(sys.argv[sys.argv.index("--out") + 1]))
+        if os.path.isdir(d) and os.path.basename(d).startswith("vmon-"):
+            return d
+    return None
+
+
 def execute(case, mon):
     import torch  # noqa: F401
     from pydrobert.torch import command_line, data
 
-    scratch = tempfile.mkdtemp(prefix="vmon-c12-")
+    scratch = tempfile.mkdtemp(prefix="vmon-c12-", dir=_scratch_parent())
     _CACHE.clear()
     cx = _Ctx()
     cx.mon, cx.data, cx.cl, cx.case = mon, data, command_line, case
@@ -912,12 +940,13 @@ def _step_read(cx, step, n):
     import torch
 
     mon = cx.mon
-    if DM.reasons(cx.model):
-        mon.stat("read_skipped_directory_invalid")
-        return
     model = cx.model
     if step["suppress_alis"]:
+        # alignments are then not even looked for: the utterance list may grow
         model = dict(model, dirs=dict(model["dirs"], ali=None))
+    if DM.reasons(cx.model) or DM.reasons(model):
+        mon.stat("read_skipped_directory_invalid")
+        return
     d = DM.discover(model)
     sos, eos, tonly = step["sos"], step["eos"], step["tokens_only"]
     try:
